@@ -498,6 +498,10 @@ def _lt(left: object, right: object) -> bool:
     if isinstance(left, str) and isinstance(right, str):
         return left < right
 
+    if isinstance(left, bool) or isinstance(right, bool):
+        # bool is a subclass of int in Python, but booleans are never ordered.
+        return False
+
     if isinstance(left, (int, float)) and isinstance(right, (int, float)):
         return left < right
 
